@@ -610,6 +610,9 @@ class Ctx:
             "violations": len(self.failures) + (1 if (self.ties_broken and not self.failures) else 0),
         }
         d = os.path.join(VERIF, "evidence")
+        if self.extra.get("DEV_SKIP_LEAN") or os.path.realpath(REPO) != "/repo":
+            # development runs (Lean gate skipped, or a scratch copy of the repository under test) never touch the evidence
+            d = "/tmp/verif_dev_evidence"
         os.makedirs(d, exist_ok=True)
         with open(os.path.join(d, f"{self.prop}.json"), "w") as f:
             json.dump(ev, f, indent=1, default=str)
